@@ -127,14 +127,57 @@ def jobs(tier, seed):
             {"name": f"hyp-{i}", "kind": "hyp", "seed": seed * 1000 + i,
              "n": b["hyp_examples"], "maxlen": b["maxlen"], "maxmax": b["maxmax"]}
         )
+    if tier == "thorough":
+        out.insert(0, {"name": "atheris-empty-corpus", "kind": "fuzz", "seed": seed, "runs": 300000, "corpus": False})
+        out.insert(0, {"name": "atheris-seeded-corpus", "kind": "fuzz", "seed": seed + 1, "runs": 300000, "corpus": True})
     return out
+
+
+def run_fuzz(job, rec):
+    """Coverage-guided campaign in a subprocess (libFuzzer owns the process).
+    A crash artefact is decoded into a JSON case and judged again here."""
+    import glob
+    import os
+    import subprocess
+    import sys
+
+    from ..common import DEPS, VERIF_DIR, checked, tmpdir
+    from ..fuzz_tokenizer import decode
+
+    mod = sys.modules[__name__]
+    work = os.path.join(tmpdir(), job["name"])
+    corpus = os.path.join(work, "corpus")
+    os.makedirs(corpus, exist_ok=True)
+    env = dict(os.environ, PYTHONPATH=DEPS + os.pathsep + os.environ.get("PYTHONPATH", ""))
+    base = [sys.executable, "-m", "vf.fuzz_tokenizer"]
+    if job["corpus"]:
+        subprocess.run(base + ["--seed-corpus", corpus], cwd=VERIF_DIR, env=env, capture_output=True)
+    r = subprocess.run(base + [f"-runs={job['runs']}", f"-seed={job['seed'] or 1}", "-max_len=70",
+                               f"-artifact_prefix={work}/", corpus], cwd=VERIF_DIR, env=env,
+                       capture_output=True, text=True)
+    if "ATHERIS-UNAVAILABLE" in r.stdout:
+        rec.extra["atheris_unavailable"] += 1
+        return
+    done = [ln for ln in r.stderr.splitlines() if ln.startswith("Done ")]
+    rec.extra["atheris_executions"] += job["runs"] if done else 0
+    rec.extra["atheris_corpus_files"] += len(os.listdir(corpus))
+    for art in sorted(glob.glob(os.path.join(work, "crash-*"))):
+        case = decode(open(art, "rb").read())
+        try:
+            checked(mod, case, rec)
+        except Violation as v:
+            rec.failures.append((v.case, v.msg))
+            return
+        rec.extra["atheris_crash_not_reproduced"] += 1
 
 
 def run_job(job, rec):
     import sys
 
     mod = sys.modules[__name__]
-    if job["kind"] == "exh":
+    if job["kind"] == "fuzz":
+        run_fuzz(job, rec)
+    elif job["kind"] == "exh":
         run_cases(mod, _exh_cases(job["n"], job["lo"], job["hi"], job["M"]), rec)
     else:
         strat = gen.tok_case(job["maxmax"], job["maxlen"], init="default")
